@@ -393,6 +393,9 @@ func choices(nodes []Node) []int {
 // deviations and records into res. Work is sharded over processes by the
 // direct children of the default execution.
 func Explore(t *testing.T, cfg *Config, res *vk.Result, deadline time.Time) {
+	if only := os.Getenv("VERIF_ONLY"); only != "" && !strings.Contains(cfg.Name, only) {
+		return // debugging aid: explore only scenarios whose name contains VERIF_ONLY
+	}
 	runtime.GOMAXPROCS(1)
 	// no GC inside executions: a GC cycle perturbs the order in which freshly spawned
 	// goroutines first run, which is the one thing the explorer cannot control
